@@ -26,10 +26,11 @@ class JsonRpcException(Exception):
     """A class used as a base class for json rpc exceptions."""
 
     def __init__(self, message=None, code=None, data=None):
-        message = message or getattr(self.__class__, "MESSAGE")
+        if message is None:
+            message = getattr(self.__class__, "MESSAGE")
         super().__init__(message)
         self.message = message
-        self.code = code or getattr(self.__class__, "CODE")
+        self.code = code if code is not None else getattr(self.__class__, "CODE")
         self.data = data
 
     def __eq__(self, other):
